@@ -152,6 +152,22 @@ func (w *World) applyBlock(t *MTxn, block uint32) {
 		t.changes = map[uint32][]Change{}
 	}
 	t.changes[block] = changes
+	// C12 invariant, checked the moment a key write is committed: one live row per key
+	if kc, ok := w.model.KeyCol(); ok {
+		for _, ch := range changes {
+			if ch.Col != kc.Name || ch.Delete {
+				continue
+			}
+			for off, r := range w.model.Rows {
+				if v, has := r[kc.Name]; has && v.S == ch.Val.S && off != ch.Off {
+					if _, live := w.model.Rows[ch.Off]; live {
+						w.fail(violation("key/duplicate", "after the commit of thread %d the live rows %d and %d both hold key %q", t.Thread, minU32(off, ch.Off), maxU32(off, ch.Off), ch.Val.S))
+						return
+					}
+				}
+			}
+		}
+	}
 	if w.trig != nil {
 		w.trig.expect(changes)
 	}
@@ -313,3 +329,17 @@ func (m *Model) stateHash() uint64 {
 }
 
 func (w *World) String() string { return fmt.Sprintf("world(%s/%s)", w.cs.Prop, w.cs.World) }
+
+func minU32(a, b uint32) uint32 {
+	if a < b {
+		return a
+	}
+	return b
+}
+
+func maxU32(a, b uint32) uint32 {
+	if a > b {
+		return a
+	}
+	return b
+}
